@@ -30,7 +30,7 @@ Print Assumptions C01_logged_energy_is_cost_plus_penalty.
 Theorem C01_de_best_and_members_evaluated :
   forall (N : Num) (inf : T N), StrictWeak (T N) (ltb N) -> (forall p, is_top N (add N inf p)) -> is_top N inf ->
   forall (npop : nat) (de2 : bool) (ops : list (op N (de_in N))) (sc : sys N * de N),
-  Forall (clean_op N _ (de_ok_in N npop) false) ops -> P_de N inf npop (fst sc) (snd sc) ->
+  Forall (clean_op N _ (de_ok_in N npop) false false) ops -> P_de N inf npop (fst sc) (snd sc) ->
   let r := run N inf _ _ (de_algo N inf de2) sc ops in
   Forall (honest N (fst r)) (members N (snd r)) /\ honest N (fst r) (de_best N inf (snd r)).
 Proof.
@@ -66,7 +66,7 @@ Theorem C01_nm_reported_best :
   forall (N : Num) (inf : T N), (forall p, is_top N (add N inf p)) -> is_top N inf ->
   forall cons0 : vec N -> vec N, (forall x, cons0 (cons0 x) = cons0 x) ->
   forall (ops : list (op N (nm_in N))) (sc : sys N * nm N),
-  Forall (clean_op N _ (nm_ok_in N) true) ops -> P_nm N inf cons0 (fst sc) (snd sc) ->
+  Forall (clean_op N _ (nm_ok_in N) true false) ops -> P_nm N inf cons0 (fst sc) (snd sc) ->
   let r := run N inf _ _ (nm_algo N inf) sc ops in
   stepmon N (fst r) <> [] -> sim N (snd r) <> [] ->
   honest N (fst r) (nm_best N inf (snd r)) /\ cons0 (fst (nm_best N inf (snd r))) = fst (nm_best N inf (snd r)) /\
@@ -94,7 +94,7 @@ Theorem C01_powell_reported_best :
   forall (N : Num) (inf : T N), (forall p, is_top N (add N inf p)) ->
   forall cons0 : vec N -> vec N, (forall x, cons0 (cons0 x) = cons0 x) ->
   forall (ops : list (op N (pw_in N))) (sc : sys N * pw N),
-  Forall (clean_op N _ (pw_ok_in N) true) ops -> P_pw N inf cons0 (fst sc) (snd sc) ->
+  Forall (clean_op N _ (pw_ok_in N) true false) ops -> P_pw N inf cons0 (fst sc) (snd sc) ->
   let r := run N inf _ _ (pw_algo N inf) sc ops in
   stepmon N (fst r) <> [] ->
   honest N (fst r) (pw_best N inf (snd r)) /\ cons0 (fst (pw_best N inf (snd r))) = fst (pw_best N inf (snd r)).
@@ -124,7 +124,7 @@ Definition C01_ex_ops : list (op NumQI (nm_in NumQI)) :=
    OStep false (Build_nm_in NumQI [C01_ex_v (1#4); C01_ex_v (1#8)] None false [0%nat; 1%nat])].
 Example C01_nm_nonvacuous_run :
   let r := run NumQI None _ _ (nm_algo NumQI None) (init_sys NumQI None (TNever NumQI), nm_init NumQI None 1) C01_ex_ops in
-  Forall (clean_op NumQI _ (nm_ok_in NumQI) true) C01_ex_ops /\
+  Forall (clean_op NumQI _ (nm_ok_in NumQI) true false) C01_ex_ops /\
   length (stepmon NumQI (fst r)) = 3%nat /\ length (sim NumQI (snd r)) = 2%nat /\ length (calls NumQI (fst r)) = 4%nat.
 Proof.
   cbv zeta. split; [|vm_compute; auto].
